@@ -424,6 +424,11 @@ func runErrflow(c *Ctx) {
 			if idx < 0 {
 				continue
 			}
+			// an error *constructor* (its only result is an error it always builds afresh) reports nothing about an
+			// operation: its value is an error to be returned or accumulated, not a status to be checked
+			if cal != nil && sig.Results().Len() == 1 && errorConstructor(cal) {
+				continue
+			}
 			cv, isVal := ci.(*ssa.Call)
 			nm := "(dynamic " + core.TypeStr(cc.Value.Type()) + ")"
 			if cal != nil {
@@ -1023,4 +1028,30 @@ func flowsFrom(a, v ssa.Value) bool {
 		}
 	}
 	return core.Strip(a) == v
+}
+
+// errorConstructor: every return of f yields an error built on the spot (fmt.Errorf / errors.New / a composite
+// literal of an error type).
+func errorConstructor(f *ssa.Function) bool {
+	rets := core.Returns(f)
+	if len(f.Blocks) == 0 || len(rets) == 0 {
+		return false
+	}
+	for _, r := range rets {
+		if len(r.Results) != 1 {
+			return false
+		}
+		ok := false
+		switch v := core.Strip(r.Results[0]).(type) {
+		case *ssa.Call:
+			n := core.CalleeName(v.Common())
+			ok = n == "fmt.Errorf" || n == "errors.New"
+		case *ssa.Alloc:
+			ok = true
+		}
+		if !ok {
+			return false
+		}
+	}
+	return true
 }
